@@ -1,7 +1,10 @@
 package main
 
 import (
+	"fmt"
 	"go/ast"
+	"go/token"
+	"strings"
 )
 
 // chanMakes lists every `make(chan …)` expression of a function, in source order, as printed source
@@ -58,6 +61,490 @@ func (e *emitter) assignedDef(s *source, rel, goName, ident, leanName string) {
 	e.stringList(leanName, "values assigned to `"+ident+"` in `"+goName+"` ("+rel+")", s.assignedTo(fd, ident))
 }
 
+
+// ---------------------------------------------------------------- round 4: a small Go -> Lean translator for the
+// decision-making conditions on the property's path (errors are `Option Nat`: nil = none; ints are `Int`).
+// Anything outside the fragment makes the translation fail loudly: the definition becomes a `Unit` marker and the
+// Tie obligation about it no longer type-checks.
+
+type c10Env struct {
+	s      *source
+	idents map[string]string // Go identifier / printed expression -> Lean term
+}
+
+type c10Fail struct{ msg string }
+
+func c10Failf(format string, a ...any) { panic(c10Fail{fmt.Sprintf(format, a...)}) }
+
+func (v *c10Env) expr(x ast.Expr) string {
+	if t, ok := v.idents[v.s.src(x)]; ok {
+		return t
+	}
+	switch n := x.(type) {
+	case *ast.ParenExpr:
+		return "(" + v.expr(n.X) + ")"
+	case *ast.Ident:
+		switch n.Name {
+		case "nil":
+			return "none"
+		case "true", "false":
+			return n.Name
+		}
+		c10Failf("unknown identifier %s", n.Name)
+	case *ast.BasicLit:
+		if n.Kind == token.INT {
+			return n.Value
+		}
+	case *ast.TypeAssertExpr:
+		return v.expr(n.X)
+	case *ast.UnaryExpr:
+		if n.Op == token.NOT {
+			return "(!" + v.expr(n.X) + ")"
+		}
+	case *ast.BinaryExpr:
+		a, b := v.expr(n.X), v.expr(n.Y)
+		switch n.Op {
+		case token.NEQ:
+			return "(" + a + " != " + b + ")"
+		case token.EQL:
+			return "(" + a + " == " + b + ")"
+		case token.LSS:
+			return "(decide (" + a + " < " + b + "))"
+		case token.LEQ:
+			return "(decide (" + a + " ≤ " + b + "))"
+		case token.GTR:
+			return "(decide (" + a + " > " + b + "))"
+		case token.GEQ:
+			return "(decide (" + a + " ≥ " + b + "))"
+		case token.LAND:
+			return "(" + a + " && " + b + ")"
+		case token.LOR:
+			return "(" + a + " || " + b + ")"
+		case token.ADD:
+			return "(" + a + " + " + b + ")"
+		case token.SUB:
+			return "(" + a + " - " + b + ")"
+		}
+	case *ast.CallExpr:
+		fn := v.s.src(n.Fun)
+		switch {
+		case fn == "errors.Is" && len(n.Args) == 2:
+			return "(" + v.expr(n.Args[0]) + " == " + v.expr(n.Args[1]) + ")"
+		case fn == "atomic.LoadInt32" && len(n.Args) == 1:
+			if u, ok := n.Args[0].(*ast.UnaryExpr); ok && u.Op == token.AND {
+				return v.expr(u.X)
+			}
+		}
+	}
+	c10Failf("expression outside the fragment: %s", v.s.src(x))
+	return ""
+}
+
+// c10Def emits `def name params : ty := body()`; a failing translation becomes a marker.
+func (e *emitter) c10Def(name, doc, params, ty string, body func() string) {
+	defer func() {
+		if p := recover(); p != nil {
+			f, ok := p.(c10Fail)
+			if !ok {
+				panic(p)
+			}
+			e.errors = append(e.errors, name+": "+f.msg)
+			e.printf("/-- TRANSLATION FAILED: %s -/\ndef %s : Unit := ()\n\n", f.msg, name)
+		}
+	}()
+	b := body()
+	e.printf("/-- %s -/\ndef %s %s : %s :=\n  %s\n\n", doc, name, params, ty, b)
+}
+
+func c10Func(s *source, rel, name string) *ast.FuncDecl {
+	fd := s.findFunc(rel, name)
+	if fd == nil {
+		c10Failf("function %s not found in %s", name, rel)
+	}
+	return fd
+}
+
+// c10Lits lists the function literals of a node in source order.
+func c10Lits(n ast.Node) []*ast.FuncLit {
+	var out []*ast.FuncLit
+	ast.Inspect(n, func(x ast.Node) bool {
+		if l, ok := x.(*ast.FuncLit); ok {
+			out = append(out, l)
+		}
+		return true
+	})
+	return out
+}
+
+func c10FirstIf(list []ast.Stmt) *ast.IfStmt {
+	for _, st := range list {
+		if i, ok := st.(*ast.IfStmt); ok {
+			return i
+		}
+	}
+	c10Failf("no if statement")
+	return nil
+}
+
+// c10OnlyCallArg: the block is exactly one call statement of the named function; returns its i-th argument.
+func c10OnlyCallArg(s *source, b *ast.BlockStmt, fn string, i int) ast.Expr {
+	if len(b.List) == 1 {
+		if es, ok := b.List[0].(*ast.ExprStmt); ok {
+			if c, ok := es.X.(*ast.CallExpr); ok && s.src(c.Fun) == fn && len(c.Args) > i {
+				return c.Args[i]
+			}
+		}
+	}
+	c10Failf("expected a single call of %s, got %s", fn, s.src(b))
+	return nil
+}
+
+// c10OnlyAssign: the block is exactly one assignment `lhs = rhs`; returns lhs name and rhs.
+func c10OnlyAssign(s *source, b *ast.BlockStmt) (string, ast.Expr) {
+	if len(b.List) == 1 {
+		if a, ok := b.List[0].(*ast.AssignStmt); ok && len(a.Lhs) == 1 && len(a.Rhs) == 1 && a.Tok == token.ASSIGN {
+			return s.src(a.Lhs[0]), a.Rhs[0]
+		}
+	}
+	c10Failf("expected a single assignment, got %s", s.src(b))
+	return "", nil
+}
+
+func c10Else(i *ast.IfStmt) *ast.BlockStmt {
+	b, ok := i.Else.(*ast.BlockStmt)
+	if !ok {
+		c10Failf("else block expected")
+	}
+	return b
+}
+
+func (e *emitter) c10Semantic(s *source) {
+	const f = "core/mr/mapreduce.go"
+	const g = "core/errorx/atomicerror.go"
+	errs := map[string]string{"ErrCancelWithNil": "(some errCancelWithNil)", "ErrReduceNoOutput": "(some errReduceNoOutput)",
+		"context.DeadlineExceeded": "(some errDeadline)"}
+	env := func(m map[string]string) *c10Env {
+		v := &c10Env{s: s, idents: map[string]string{}}
+		for k, x := range errs {
+			v.idents[k] = x
+		}
+		for k, x := range m {
+			v.idents[k] = x
+		}
+		return v
+	}
+	e.printf("/-- error codes of the translation (a convention of the extractor, equal to `Spec.encErr`) -/\ndef errCancelWithNil : Nat := 0\ndef errDeadline : Nat := 1\ndef errReduceNoOutput : Nat := 2\n\n")
+
+	e.c10Def("withWorkers", "`WithWorkers(workers)`: the value stored into opts.workers", "(workers : Int)", "Int", func() string {
+		lits := c10Lits(c10Func(s, f, "WithWorkers").Body)
+		if len(lits) != 1 {
+			c10Failf("one function literal expected")
+		}
+		v := env(map[string]string{"workers": "workers", "minWorkers": "minWorkers"})
+		i := c10FirstIf(lits[0].Body.List)
+		l1, r1 := c10OnlyAssign(s, i.Body)
+		l2, r2 := c10OnlyAssign(s, c10Else(i))
+		if l1 != "opts.workers" || l2 != "opts.workers" || len(lits[0].Body.List) != 1 {
+			c10Failf("both branches must assign opts.workers and nothing else")
+		}
+		return "if " + v.expr(i.Cond) + " then " + v.expr(r1) + " else " + v.expr(r2)
+	})
+	e.c10Def("dispatcherLoopCond", "the loop condition of `executeMappers` (the dispatcher goes on handing out items)", "(failed : Int)", "Bool", func() string {
+		var cond ast.Expr
+		for _, st := range c10Func(s, f, "executeMappers").Body.List {
+			if fs, ok := st.(*ast.ForStmt); ok {
+				cond = fs.Cond
+			}
+		}
+		if cond == nil {
+			c10Failf("no for loop with a condition")
+		}
+		return env(map[string]string{"failed": "failed"}).expr(cond)
+	})
+	e.c10Def("failedDelta", "what a recovered mapper panic adds to `failed`", "", "Int", func() string {
+		var out string
+		ast.Inspect(c10Func(s, f, "executeMappers").Body, func(n ast.Node) bool {
+			if c, ok := n.(*ast.CallExpr); ok && s.src(c.Fun) == "atomic.AddInt32" && len(c.Args) == 2 && s.src(c.Args[0]) == "&failed" {
+				out = env(nil).expr(c.Args[1])
+			}
+			return true
+		})
+		if out == "" {
+			c10Failf("atomic.AddInt32(&failed, …) not found")
+		}
+		return out
+	})
+	e.c10Def("atomicErrorSet", "`AtomicError.Set(err)` as new content of the cell (`cur` = content before)", "(cur err : Option Nat)", "Option Nat", func() string {
+		fd := c10Func(s, g, "AtomicError.Set")
+		if len(fd.Body.List) != 1 {
+			c10Failf("one statement expected")
+		}
+		i := c10FirstIf(fd.Body.List)
+		if i.Else != nil || i.Init != nil {
+			c10Failf("plain if expected")
+		}
+		v := env(map[string]string{"err": "err"})
+		return "if " + v.expr(i.Cond) + " then " + v.expr(c10OnlyCallArg(s, i.Body, "ae.err.Store", 0)) + " else cur"
+	})
+	e.c10Def("atomicErrorLoad", "`AtomicError.Load()` (`cur` = content of the cell)", "(cur : Option Nat)", "Option Nat", func() string {
+		fd := c10Func(s, g, "AtomicError.Load")
+		if len(fd.Body.List) != 2 {
+			c10Failf("two statements expected")
+		}
+		i := c10FirstIf(fd.Body.List[:1])
+		as, ok := i.Init.(*ast.AssignStmt)
+		if !ok || len(as.Lhs) != 1 || len(as.Rhs) != 1 || s.src(as.Rhs[0]) != "ae.err.Load()" || i.Else != nil {
+			c10Failf("`if v := ae.err.Load(); …` expected")
+		}
+		name := s.src(as.Lhs[0])
+		v := env(map[string]string{name: "v"})
+		ret := func(st ast.Stmt) ast.Expr {
+			r, ok := st.(*ast.ReturnStmt)
+			if !ok || len(r.Results) != 1 {
+				c10Failf("return of one value expected")
+			}
+			return r.Results[0]
+		}
+		if len(i.Body.List) != 1 {
+			c10Failf("one statement in the if body expected")
+		}
+		return "let v := cur; if " + v.expr(i.Cond) + " then " + v.expr(ret(i.Body.List[0])) + " else " + v.expr(ret(fd.Body.List[1]))
+	})
+	mr := func() *ast.FuncDecl { return c10Func(s, f, "mapReduceWithPanicChan") }
+	e.c10Def("cancelRecords", "what `cancel(err)` stores into retErr (the function handed to `once`)", "(err : Option Nat)", "Option Nat", func() string {
+		var lit *ast.FuncLit
+		ast.Inspect(mr().Body, func(n ast.Node) bool {
+			if c, ok := n.(*ast.CallExpr); ok && s.src(c.Fun) == "once" && len(c.Args) == 1 {
+				lit, _ = c.Args[0].(*ast.FuncLit)
+			}
+			return true
+		})
+		if lit == nil || len(lit.Body.List) != 3 {
+			c10Failf("once(func(err error){ if…; drain; finish })")
+		}
+		i := c10FirstIf(lit.Body.List[:1])
+		v := env(map[string]string{"err": "err"})
+		return "if " + v.expr(i.Cond) + " then atomicErrorSet none " + v.expr(c10OnlyCallArg(s, i.Body, "retErr.Set", 0)) +
+			" else atomicErrorSet none " + v.expr(c10OnlyCallArg(s, c10Else(i), "retErr.Set", 0))
+	})
+	// the caller's select
+	var sel *ast.SelectStmt
+	findSel := func() {
+		for _, st := range mr().Body.List {
+			if x, ok := st.(*ast.SelectStmt); ok {
+				sel = x
+			}
+		}
+		if sel == nil {
+			c10Failf("the caller's select not found")
+		}
+	}
+	e.c10Def("callerOutput", "the caller's `case v, ok := <-output` branch as (val, err)", "(retErr : Option Nat) (ok : Bool) (v : Nat)", "Nat × Option Nat", func() string {
+		findSel()
+		for _, cl := range sel.Body.List {
+			cc := cl.(*ast.CommClause)
+			if cc.Comm == nil || s.src(cc.Comm) != "v, ok := <-output" {
+				continue
+			}
+			if len(cc.Body) != 1 {
+				c10Failf("one statement in the output case expected")
+			}
+			i := c10FirstIf(cc.Body)
+			as, okk := i.Init.(*ast.AssignStmt)
+			if !okk || s.src(as) != "e := retErr.Load()" {
+				c10Failf("`if e := retErr.Load(); …` expected")
+			}
+			vv := env(map[string]string{"e": "e", "ok": "ok", "v": "v"})
+			branch := func(b *ast.BlockStmt) string {
+				l, r := c10OnlyAssign(s, b)
+				switch l {
+				case "err":
+					return "(0, " + vv.expr(r) + ")"
+				case "val":
+					return "(" + vv.expr(r) + ", none)"
+				}
+				c10Failf("assignment to %s", l)
+				return ""
+			}
+			i2, okk := i.Else.(*ast.IfStmt)
+			if !okk || i2.Init != nil {
+				c10Failf("else-if expected")
+			}
+			return "let e := atomicErrorLoad retErr; if " + vv.expr(i.Cond) + " then " + branch(i.Body) + " else if " + vv.expr(i2.Cond) +
+				" then " + branch(i2.Body) + " else " + branch(c10Else(i2))
+		}
+		c10Failf("output case not found")
+		return ""
+	})
+	e.c10Def("callerCtxCase", "the caller's context case: (argument of cancel, returned err)", "", "Option Nat × Option Nat", func() string {
+		findSel()
+		for _, cl := range sel.Body.List {
+			cc := cl.(*ast.CommClause)
+			if cc.Comm == nil || s.src(cc.Comm) != "<-options.ctx.Done()" {
+				continue
+			}
+			if len(cc.Body) != 2 {
+				c10Failf("two statements in the context case expected")
+			}
+			arg := c10OnlyCallArg(s, &ast.BlockStmt{List: cc.Body[:1]}, "cancel", 0)
+			l, r := c10OnlyAssign(s, &ast.BlockStmt{List: cc.Body[1:]})
+			if l != "err" {
+				c10Failf("assignment to err expected")
+			}
+			return "(" + env(nil).expr(arg) + ", " + env(nil).expr(r) + ")"
+		}
+		c10Failf("context case not found")
+		return ""
+	})
+	e.c10Def("voidReturn", "what `MapReduceVoid` returns for the error of `MapReduce`", "(err : Option Nat)", "Option Nat", func() string {
+		fd := c10Func(s, f, "MapReduceVoid")
+		if len(fd.Body.List) != 3 {
+			c10Failf("three statements expected")
+		}
+		i := c10FirstIf(fd.Body.List[1:2])
+		v := env(map[string]string{"err": "err"})
+		r1, ok1 := i.Body.List[0].(*ast.ReturnStmt)
+		r2, ok2 := fd.Body.List[2].(*ast.ReturnStmt)
+		if !ok1 || !ok2 || len(i.Body.List) != 1 || len(r1.Results) != 1 || len(r2.Results) != 1 || i.Else != nil {
+			c10Failf("if … { return x }; return y expected")
+		}
+		return "if " + v.expr(i.Cond) + " then " + v.expr(r1.Results[0]) + " else " + v.expr(r2.Results[0])
+	})
+	for _, fn := range []string{"Finish", "FinishVoid"} {
+		fn := fn
+		lo := strings.ToLower(fn[:1]) + fn[1:]
+		e.c10Def(lo+"EmptyGuard", "`"+fn+"` returns at once (n = len(fns))", "(n : Int)", "Bool", func() string {
+			i := c10FirstIf(c10Func(s, f, fn).Body.List[:1])
+			return env(map[string]string{"len(fns)": "n"}).expr(i.Cond)
+		})
+		e.c10Def(lo+"WorkersArg", "the argument of the `WithWorkers` option `"+fn+"` passes (n = len(fns))", "(n : Int)", "Int", func() string {
+			var out string
+			ast.Inspect(c10Func(s, f, fn).Body, func(n ast.Node) bool {
+				if c, ok := n.(*ast.CallExpr); ok && s.src(c.Fun) == "WithWorkers" && len(c.Args) == 1 {
+					out = env(map[string]string{"len(fns)": "n"}).expr(c.Args[0])
+				}
+				return true
+			})
+			if out == "" {
+				c10Failf("no WithWorkers option")
+			}
+			return out
+		})
+	}
+	e.c10Def("finishMapperCancel", "the mapper of `Finish`: which error it passes to cancel (`none` = it does not cancel) for the result of fn()", "(err : Option Nat)", "Option (Option Nat)", func() string {
+		lits := c10Lits(c10Func(s, f, "Finish").Body)
+		if len(lits) != 3 || len(lits[1].Body.List) != 1 {
+			c10Failf("three function literals expected, the mapper with one statement")
+		}
+		i := c10FirstIf(lits[1].Body.List)
+		if i.Init == nil || s.src(i.Init) != "err := fn()" || i.Else != nil {
+			c10Failf("`if err := fn(); …` expected")
+		}
+		v := env(map[string]string{"err": "err"})
+		return "if " + v.expr(i.Cond) + " then some " + v.expr(c10OnlyCallArg(s, i.Body, "cancel", 0)) + " else none"
+	})
+	// the defaults and the option plumbing (skeletons)
+	var fields []string
+	ast.Inspect(c10Func0(s, f, "newOptions"), func(n ast.Node) bool {
+		if kv, ok := n.(*ast.KeyValueExpr); ok {
+			fields = append(fields, s.src(kv.Key)+": "+s.src(kv.Value))
+		}
+		return true
+	})
+	e.stringList("newOptionsFields", "the defaults `newOptions` builds (a fresh struct per call)", fields)
+	var rets []string
+	ast.Inspect(c10Func0(s, f, "newOptions"), func(n ast.Node) bool {
+		if r, ok := n.(*ast.ReturnStmt); ok && len(r.Results) == 1 {
+			if u, ok := r.Results[0].(*ast.UnaryExpr); ok {
+				if _, ok := u.X.(*ast.CompositeLit); ok && u.Op == token.AND {
+					rets = append(rets, "&literal")
+					return true
+				}
+			}
+			rets = append(rets, s.src(r.Results[0]))
+		}
+		return true
+	})
+	e.stringList("newOptionsReturns", "what `newOptions` returns: the address of a fresh composite literal", rets)
+	var pkgVars []string
+	if file := s.file(f); file != nil {
+		for _, d := range file.Decls {
+			if gd, ok := d.(*ast.GenDecl); ok && gd.Tok == token.VAR {
+				for _, sp := range gd.Specs {
+					for _, nm := range sp.(*ast.ValueSpec).Names {
+						pkgVars = append(pkgVars, nm.Name)
+					}
+				}
+			}
+		}
+	}
+	e.stringList("packageVars", "package-level variables of core/mr/mapreduce.go (state that would persist between calls)", pkgVars)
+}
+
+// c10KV lists `key: value` of every keyed composite-literal element of a function, in source order (which argument /
+// option / channel is forwarded into which field); function literals are abbreviated.
+func (e *emitter) c10KV(s *source, rel, goName, leanName string) {
+	var out []string
+	ast.Inspect(c10Func0(s, rel, goName), func(n ast.Node) bool {
+		if kv, ok := n.(*ast.KeyValueExpr); ok {
+			v := s.src(kv.Value)
+			if _, ok := kv.Value.(*ast.FuncLit); ok {
+				v = "func"
+			}
+			out = append(out, s.src(kv.Key)+": "+v)
+		}
+		return true
+	})
+	e.stringList(leanName, "fields forwarded by the composite literals of `"+goName+"` in "+rel, out)
+}
+
+// c10CallArgs lists the printed argument lists of every call of `callee` in a function (function literals abbreviated).
+func (e *emitter) c10CallArgs(s *source, rel, goName, callee, leanName string) {
+	var out []string
+	ast.Inspect(c10Func0(s, rel, goName), func(n ast.Node) bool {
+		if c, ok := n.(*ast.CallExpr); ok && s.src(c.Fun) == callee {
+			var as []string
+			for _, a := range c.Args {
+				if _, ok := a.(*ast.FuncLit); ok {
+					as = append(as, "func")
+				} else {
+					as = append(as, s.src(a))
+				}
+			}
+			if c.Ellipsis.IsValid() {
+				as[len(as)-1] += "..."
+			}
+			out = append(out, strings.Join(as, ", "))
+		}
+		return true
+	})
+	e.stringList(leanName, "arguments of the calls of `"+callee+"` in `"+goName+"` ("+rel+")", out)
+}
+
+// c10Stores lists `lhs = rhs` for every assignment to a selector expression in a function.
+func (e *emitter) c10Stores(s *source, rel, goName, leanName string) {
+	var out []string
+	ast.Inspect(c10Func0(s, rel, goName), func(n ast.Node) bool {
+		if a, ok := n.(*ast.AssignStmt); ok && len(a.Lhs) == len(a.Rhs) {
+			for i, l := range a.Lhs {
+				if _, ok := l.(*ast.SelectorExpr); ok {
+					out = append(out, s.src(l)+" = "+s.src(a.Rhs[i]))
+				}
+			}
+		}
+		return true
+	})
+	e.stringList(leanName, "stores to fields in `"+goName+"` ("+rel+")", out)
+}
+
+func c10Func0(s *source, rel, name string) ast.Node {
+	fd := s.findFunc(rel, name)
+	if fd == nil {
+		return &ast.BlockStmt{}
+	}
+	return fd.Body
+}
+
 func init() {
 	register("C10", func(s *source, e *emitter) {
 		const f = "core/mr/mapreduce.go"
@@ -91,5 +578,33 @@ func init() {
 		const g = "core/errorx/atomicerror.go"
 		e.shapeDef(s, g, "AtomicError.Set", "atomicErrorSetShape")
 		e.shapeDef(s, g, "AtomicError.Load", "atomicErrorLoadShape")
+		e.shapeDef(s, f, "MapReduceChan", "mapReduceChanShape")
+		e.shapeDef(s, f, "Finish", "finishShape")
+		e.shapeDef(s, f, "FinishVoid", "finishVoidShape")
+		e.shapeDef(s, f, "WithContext", "withContextShape")
+		e.shapeDef(s, f, "buildOptions", "buildOptionsShape")
+		e.shapeDef(s, f, "newOptions", "newOptionsShape")
+		e.shapeDef(s, f, "newGuardedWriter", "newGuardedWriterShape")
+		e.assignedDef(s, f, "buildOptions", "options", "buildOptionsInit")
+		e.c10Stores(s, f, "WithContext", "withContextStores")
+		e.c10KV(s, f, "newGuardedWriter", "newGuardedWriterFields")
+		e.c10KV(s, f, "ForEach", "forEachFields")
+		e.c10KV(s, f, "mapReduceWithPanicChan", "mapReduceWithPanicChanFields")
+		e.c10CallArgs(s, f, "mapReduceWithPanicChan", "newGuardedWriter", "callerWriterArgs")
+		e.c10CallArgs(s, f, "executeMappers", "newGuardedWriter", "mapperWriterArgs")
+		e.c10CallArgs(s, f, "mapReduceWithPanicChan", "buildOptions", "callerBuildOptionsArgs")
+		e.c10CallArgs(s, f, "ForEach", "buildOptions", "forEachBuildOptionsArgs")
+		e.c10CallArgs(s, f, "MapReduce", "mapReduceWithPanicChan", "mapReduceForwardArgs")
+		e.c10CallArgs(s, f, "MapReduce", "buildSource", "mapReduceBuildSourceArgs")
+		e.c10CallArgs(s, f, "ForEach", "buildSource", "forEachBuildSourceArgs")
+		e.c10CallArgs(s, f, "MapReduceChan", "mapReduceWithPanicChan", "mapReduceChanForwardArgs")
+		e.c10CallArgs(s, f, "MapReduceVoid", "MapReduce", "mapReduceVoidForwardArgs")
+		e.c10CallArgs(s, f, "mapReduceWithPanicChan", "reducer", "reducerCallArgs")
+		e.c10CallArgs(s, f, "mapReduceWithPanicChan", "mapper", "mapperCallArgs")
+		e.c10CallArgs(s, f, "mapReduceWithPanicChan", "drain", "callerDrainArgs")
+		e.c10CallArgs(s, f, "executeMappers", "drain", "dispatcherDrainArgs")
+		e.c10CallArgs(s, f, "executeMappers", "mCtx.mapper", "dispatcherMapperArgs")
+		e.c10CallArgs(s, f, "executeMappers", "wg.Add", "dispatcherWgAddArgs")
+		e.c10Semantic(s)
 	})
 }
